@@ -340,7 +340,7 @@ String encodeHex(const byte* data, int n)
 ByteArray decodeHex(const String& s)
 {
 	ByteArray a(s.length() / 2);
-	for (int i = 0; i < s.length(); i += 2)
+	for (int i = 0; i + 1 < s.length(); i += 2)
 		a[i/2] = (byte)s.substring(i, i + 2).hexToInt();
 	return a;
 }
